@@ -20,7 +20,7 @@ def step(desc, cmd, want_ok):
         print(o[-1500:])
     return ok
 # make sure the worktree holds exactly the patch
-run("git checkout -- . && git clean -fdq -- tests src")
+run("git reset -q && git checkout -- . && git clean -fdq -- tests src")
 rc, o = run(f"git apply {out}/patch.diff")
 assert rc == 0, o
 good = step("existing tests pass with the change", "cargo test --offline", True)
